@@ -937,3 +937,36 @@ package genql
 // (after the filter, or after the recursive run): nothing is copied over wholesale
 //@ func (*Query).exec
 //@   at-call append:slice, assert the-result-is-built-in-the-row-loop[C01,C08]: rangeindex >= -1
+
+// ---------------------------------------------------------------------------
+// clauses added after the sixth batch of seeded changes
+
+// C08/C11: exec builds its result in a slice of its own (never in the FROM array, which may be the caller's)
+//@ func (*Query).exec
+//@   frame[C08,C11]
+
+// C11: a comparison sets the navigation entry on the row for the time its operands are evaluated and takes it off
+// again on every way out, errors included
+//@ func ComparisonExpr
+//@   ensures the-navigation-entry-is-taken-off-on-every-way-out[C11]: !has(current, "<-")
+
+// C12/C14/C11: what a query adopted while it was built (a derived table's or a join side's deferred work) is still there when
+// the run begins: the list of post processors is not reset
+//@ func (*Query).execAndPostProcess
+//@   at-call (*Query).exec assert nothing-adopted-at-build-time-is-dropped[C11,C12,C14]: query.postProcessors == old(query.postProcessors)
+
+// C13/C09: a parsed selector is cached under exactly the text it was parsed from
+//@ func parsedSelectors
+//@   at-call mapstore:cache assert cached-under-the-text-it-was-parsed-from[C13,C09]: key == selector
+
+// C19/C14: ONCE memoises a call only when it succeeded
+//@ func FunExpr
+//@   at-call mapstore:query.singletonExecutions[name] assert only-a-call-that-succeeded-is-memoised[C19,C14]: err == nil
+
+// C04: the key columns of a side are derived from this join's ON expression and this side's alias, for every catalogue
+//@ func ToCatalog
+//@   at-call extractJoinColumns assert key-columns-come-from-this-on-and-this-alias[C04]: arg0 == ident && arg1 == identRight && arg2 == joinExpr
+
+// C09: a token in quotes is a key, whatever it starts with
+//@ func ParseSelector
+//@   at-call ParseArray assert only-an-unquoted-bracket-opens-an-array-step[C09]: callresult(FindAllString, 0)[rangeindex + 1] == rangevalue
